@@ -21,14 +21,16 @@ import numpy as np
 from . import core, pylite_tie
 from .core import Case, cD, cZ, cN, clist, cbool
 from .c09 import (_cloud, _lattice, _distinct_values, _fix_weights, _cd, _cdl, _cdll, _fmt, _same, LAYOUTS,
-                  apply_layout, first_call_args, cast_variant, params_snapshot, weight_patterns, geo_term, geometry_configs, configured, next_mode, _call_args, _COUNTER)
+                  apply_layout, first_call_args, cast_variant, params_snapshot, weight_patterns, geo_term, geometry_configs, configured, next_mode, _call_args, _COUNTER, _SPELL, next_spelling)
 
 obligations = pylite_tie.c10_obligations   # source-regenerated tie of variance_to_weights (harness/pylite_tie.py, pylite_weights.v.tmpl)
 ID = "C10"
 PROPS_FILE = "Props/C10.v"
 IMPORTS = "From Verde Require Import Lib.QList Model.BlockReduce Model.Weights Model.BlockGeo."
 SHARD = 34
-RULE = ("every case of every stream configures the estimator by one of five routes in fixed shares (one fifth each, cycling in generation "
+RULE = ("the weights argument is spelled in fixed shares as None / a tuple of None (accepted: unweighted rule) and, where uncertainty=True must "
+        "reject, also as a list of None and as a tuple in which the first or the last component has no weights; a single weight array is "
+        "passed bare or as a 1-tuple; every case of every stream configures the estimator by one of five routes in fixed shares (one fifth each, cycling in generation "
         "order): constructor arguments; construction with deliberately different options followed by set_params(**all options); the same "
         "followed by plain attribute assignment of every option; sklearn.base.clone of a configured instance; construction with one or two "
         "options different (cycling over all options), one filter() call, then those options changed (set_params / assignment alternately) - the "
@@ -93,13 +95,13 @@ def probe_ddof(vd):
 # ---------------------------------------------------------------------------
 # BlockMean.filter
 # ---------------------------------------------------------------------------
-def observe_bm(vd, coords, data, weights, kw, tuple1, twice=False, mode="ctor", step=0):
+def observe_bm(vd, coords, data, weights, kw, tuple1, twice=False, mode="ctor", step=0, wspell=None):
     arrays = list(coords) + list(data) + (list(weights) if weights is not None else [])
     before = [a.tobytes() for a in arrays]
     stale = False
     params_ok = True
     try:
-        c_, d, w = _call_args(coords, data, weights, tuple1)
+        c_, d, w = _call_args(coords, data, weights, tuple1, wspell)
         bm = configured(vd, "BlockMean", dict(kw), mode, step, first=(c_, d, w))
         params = params_snapshot(bm)
         if twice:
@@ -154,7 +156,19 @@ def make_bm_case(vd, coords, data, weights, kw, kind, expect_valid=True):
     mode, step = kw.get("_mode") or next_mode()
     if not expect_valid:
         mode = "ctor"
-    obs, unchanged, params_ok = observe_bm(vd, coords, data, weights, kwc, bool(kw.get("_tuple1")), bool(kw.get("_twice")), mode, step)
+    wspell = kw.get("_wspelling")
+    if wspell is None and expect_valid:
+        if weights is None and kwc.get("uncertainty"):
+            # must be rejected however "no weights" is spelled: None, a tuple / list of None, or a tuple in which
+            # a component has no weights
+            wspell = next_spelling(["none", "tuple_none", "list_none", "mixed", "tuple_none", "mixed_last"])
+        elif weights is None:
+            wspell = next_spelling(["none", "tuple_none"])
+        else:
+            wspell = next_spelling(["bare", "tuple"]) if len(weights) == 1 else "tuple"
+    if wspell in ("mixed", "mixed_last") and len(data) < 2:
+        wspell = "tuple_none"
+    obs, unchanged, params_ok = observe_bm(vd, coords, data, weights, kwc, bool(kw.get("_tuple1")), bool(kw.get("_twice")), mode, step, wspell)
     tags = list(kw.get("_layouts") or []) + ["C"] * 16
     tc, td, tw = tags[:len(coords)], tags[len(coords):len(coords) + len(data)], tags[len(coords) + len(data):]
     cw = "None" if weights is None else "(Some %s)" % _cdll(weights)
@@ -177,6 +191,7 @@ def make_bm_case(vd, coords, data, weights, kw, kind, expect_valid=True):
         kwc, mode, step, bool(kw.get("_twice")), bool(kw.get("_tuple1")),
         ", ".join(_fmt(c, t) for c, t in zip(coords, tc)), ", ".join(_fmt(d, t) for d, t in zip(data, td)),
         "None" if weights is None else "[%s]" % ", ".join(_fmt(w, t) for w, t in zip(weights, tw))))
+    repro = repro[:-1] + ", %r)" % wspell
     inp = {"function": "BlockMean.filter", "kwargs": kwc, "coordinates": [np.asarray(c).tolist() for c in coords],
            "data": [np.asarray(d).tolist() for d in data],
            "weights": None if weights is None else [np.asarray(w).tolist() for w in weights],
@@ -184,7 +199,8 @@ def make_bm_case(vd, coords, data, weights, kw, kind, expect_valid=True):
            "ddof_probed": probe_ddof(vd),
            "dtypes": [str(np.asarray(a).dtype) for a in list(coords) + list(data) + (list(weights) if weights is not None else [])],
            "layouts": kw.get("_layouts"), "instance_reused": bool(kw.get("_twice")),
-           "weight_patterns": kw.get("_wpatterns"), "configured_by": mode, "config_step": step}
+           "weight_patterns": kw.get("_wpatterns"), "configured_by": mode, "config_step": step,
+           "weights_spelled": wspell}
     out = [obs[0]] + ([[a.tolist() for a in o] for o in obs[1:]] if obs[0] == "ok" else list(obs[1:])) + [{"inputs_and_params_unchanged": unchanged, "get_params_unchanged": params_ok}]
     return Case(inp, out, term, repro, kind, nontrivial=nontrivial)
 
@@ -376,6 +392,19 @@ def bm_edge_cases(vd):
             out.append(([e.copy(), n.copy(), up.copy()], [dd[j].copy() for j in range(len(combo))],
                         [pats[c_].copy() * (1 if c_ in ("ones", "const") else j + 1) for j, c_ in enumerate(combo)], kw,
                         "bm-edge-constw-" + ("uncertainty" if unc else "wvariance")))
+    # "no weights" in every spelling with 1, 2 and 3 components: rejected with uncertainty=True, the unweighted rule otherwise
+    for ncomp in (1, 2, 3):
+        comps = [d0, d1, d2][:ncomp]
+        for sp_ in ("none", "tuple_none", "list_none", "mixed", "mixed_last"):
+            kw = dict(spacing=1, region=(0, 3, 0, 2), uncertainty=True, _wspelling=sp_, _tuple1=(ncomp == 1 and sp_ != "none"))
+            out.append(([e.copy(), n.copy()], [c_.copy() for c_ in comps], None, kw, "bm-reject"))
+        for sp_ in ("none", "tuple_none"):
+            kw = dict(spacing=1, region=(0, 3, 0, 2), center_coordinates=(ncomp == 2), _wspelling=sp_)
+            out.append(([e.copy(), n.copy()], [c_.copy() for c_ in comps], None, kw, "bm-edge-unweighted"))
+        for sp_ in ("bare", "tuple"):
+            for unc in (False, True):
+                kw = dict(spacing=1, region=(0, 3, 0, 2), uncertainty=unc, _wspelling=sp_)
+                out.append(([e.copy(), n.copy()], [comps[-1].copy()], [w0.copy()], kw, "bm-edge-" + ("uncertainty" if unc else "wvariance")))
     # one object, two surveys: the instance first filters a cloud with another bounding box (shifted / larger /
     # smaller, by point count) and point count; region=None, so each call must infer its own region
     for npts in (12, 13, 14):
@@ -518,6 +547,7 @@ def generate(tier, seed):
     import verde as vd
     _PROBE.clear()
     _COUNTER[0] = 0
+    _SPELL[0] = 0
     rnd = random.Random(seed)
     cases = []
     for coords, data, weights, kw, kind in bm_edge_cases(vd):
